@@ -36,9 +36,10 @@ PTRSIZE == 8
 K == INSTANCE KernelExec WITH PTR <- 8, ARGMIN <- 131072, STKCAP <- 6291456, STRMAX <- 131072
 HEADROOM == 2048
 \* what the code may spend on one command line: the C library's ARG_MAX for this stack limit, capped at what the
-\* kernel really grants, less the headroom POSIX asks for and the environment (bytes and one pointer per string)
+\* kernel really grants, less the headroom POSIX asks for, the environment (bytes and one pointer per string) and the
+\* name of the file executed, which the kernel copies into the same space (the command is given as a path here)
 ExpectedMaxSys(real) ==
-  LET a == MinOf(K!LibcArgMax(real.rlim), 6291456)  c == HEADROOM + real.envbytes + PTRSIZE * real.envc IN
+  LET a == MinOf(K!LibcArgMax(real.rlim), 6291456)  c == HEADROOM + real.envbytes + PTRSIZE * real.envc + real.fname IN
   IF a > c THEN a - c ELSE 0
 \* ... and what the command with its initial arguments costs there: bytes, terminators, one pointer per string
 ExpectedSysBase(r, real) == real.cmd + PTRSIZE * (r.ninit + 1)
